@@ -15,6 +15,13 @@ import (
 func checkParsesAs(t *fw.T, tree *gen.Node, lays []NamedLayout, label string) {
 	r := t.Rand()
 	want := tree.S()
+	if t.Index%64 == 7 {
+		// other builders with plugins (postfix operators on ! and %, infix / prefix operators, word-like token types,
+		// interceptors, modes) are configured and used in this process: the tree a plain parser builds depends on the
+		// token sequence only, not on which parsers existed before
+		pluginNoise(t.Index / 64)
+		t.Count("cases_preceded_by_plugin_activity_on_other_builders", 1)
+	}
 	rds := make([]*gen.Rendered, len(lays))
 	texts := make([]string, len(lays))
 	for i, l := range lays {
